@@ -61,6 +61,10 @@ def scalars(tier):
         S("float", ("min", 1e19)), S("float", ("max", -1e19)),
         S("float", ("precision", 3)), S("float", ("min", 0.0)), S("float", ("max", 0.0)),
         S("float", call(1.5), ("min", 1.0), ("max", 2.0)),
+        # pinned ON its bound: what the pin tolerates, the bound does not
+        S("float", call(1.0), ("min", 1.0)), S("float", call(2.5), ("max", 2.5)),
+        S("float", call(2.5), ("precision", 1), ("min", 2.5)),
+        S("int", call(1)), S("int", call(False)),
         S("float", ("min", 2.5), ("max", 1.5)),
     ]
     # bounds one ulp off a grid point (the float product bound * 10**p then rounds onto the grid)
